@@ -646,7 +646,17 @@ fn gen_value_json(r: &mut Rng, d: u32) -> J {
         1 => json!(gen::gen_long(r)),
         2 => json!(gen::gen_string(r)),
         3 => json!({"__entity": j_uid(r)}),
-        4 => match r.below(4) {
+        4 => match r.below(6) {
+            4 | 5 => {
+                // any extension function, in the multi-argument form, with 0..3 arguments (method-style functions
+                // without a receiver included)
+                let f = *r.pick(&["decimal", "ip", "datetime", "duration", "isIpv4", "isIpv6", "isLoopback", "isMulticast", "isInRange", "lessThan",
+                    "lessThanOrEqual", "greaterThan", "greaterThanOrEqual", "offset", "durationSince", "toDate", "toTime", "toMilliseconds", "toSeconds",
+                    "toMinutes", "toHours", "toDays", "nosuchfn"]);
+                let n = r.below(4);
+                let args: Vec<J> = (0..n).map(|_| match r.below(3) { 0 => json!({"__extn": {"fn": "ip", "arg": "10.0.0.1"}}), 1 => json!({"__extn": {"fn": "duration", "arg": "1h"}}), _ => gen_value_json(r, 0) }).collect();
+                json!({"__extn": {"fn": f, "args": args}})
+            }
             0 => json!({"__extn": {"fn": "decimal", "arg": *r.pick(gen::DECIMALS_OK)}}),
             1 => json!({"__extn": {"fn": "ip", "arg": *r.pick(gen::IPS_OK)}}),
             2 => json!({"__extn": {"fn": "offset", "args": [{"__extn": {"fn": "datetime", "arg": "2024-01-01"}}, {"__extn": {"fn": "duration", "arg": "1h"}}]}}),
@@ -1025,7 +1035,7 @@ fn replay(path: &str, seed: u64, out: &mut Out) {
         let line = line.trim();
         if line.is_empty() { continue; }
         if line.starts_with('{') {
-            match serde_json::from_str::<J>(line) { Ok(j) => check_json_policy(&worlds, &j, i as u64, out), Err(e) => eprintln!("line {i}: bad json {e}") }
+            match serde_json::from_str::<J>(line) { Ok(j) => { if let Err(pn) = catch_unwind(AssertUnwindSafe(|| check_json_policy(&worlds, &j, i as u64, out))) { out.propfail("panic while printing / converting / evaluating an accepted JSON policy", &j.to_string(), &panic_msg(pn)); } } Err(e) => eprintln!("line {i}: bad json {e}") }
         } else {
             let link = if line.contains("?principal") || line.contains("?resource") { Some((Some(gen::mk_uid("User", "a")), Some(gen::mk_uid("NS::Doc", "a")))) } else { None };
             let link = link.map(|(p, q)| (if line.contains("?principal") { p } else { None }, if line.contains("?resource") { q } else { None }));
@@ -1105,7 +1115,7 @@ pub fn run(args: &Args, out: &mut Out) {
         // hand-built JSON policies, same worlds
         for _ in 0..2 {
             let j = gen_policy_json(&mut cr, out);
-            check_json_policy(&worlds, &j, i, out);
+            if let Err(pn) = catch_unwind(AssertUnwindSafe(|| check_json_policy(&worlds, &j, i, out))) { out.propfail("panic while printing / converting / evaluating an accepted JSON policy", &j.to_string(), &panic_msg(pn)); }
             i += 1;
         }
     }
